@@ -19,7 +19,7 @@ def main():
     os.makedirs(work)
     res = dict(mutant=mdir, checks={}, demo=None)
     try:
-        sh(["rsync", "-a", "--exclude", ".git", "--exclude", "replays", "--exclude", "build", "--exclude", "seeded", "/verif/", work + "/verif/"])
+        sh(["rsync", "-a", "--exclude", ".git", "--exclude", "replays", "--exclude", "build", "--exclude", "seeded", "--exclude-from", "/verif/.git/info/exclude", "/verif/", work + "/verif/"])
         rc, out = sh(["git", "-C", "/repo", "worktree", "add", "--detach", work + "/repo", "HEAD"])
         if demo and os.path.exists(os.path.join(mdir, "run.sh")):
             shutil.copytree(mdir, work + "/repo/out/" + os.path.basename(mdir), dirs_exist_ok=True)
